@@ -19,6 +19,7 @@ import (
 
 	"verif/internal/gen"
 	"verif/internal/gt"
+	"verif/internal/litfuzz"
 	"verif/internal/ox"
 	"verif/internal/pgen"
 	"verif/internal/run"
@@ -105,6 +106,53 @@ var invalidSnippets = []string{
 	"x = function (a a) {};", "x = function f(", "x = {", "x = [", "x = (", "debugger x;", "delete;", "typeof;", "void;", "x = new new;", "in x;", "instanceof x;", ", x;", "? x : y;", ": x;", "x = a ?? ;",
 }
 
+// contextInvalid builds an early error whose invalidity depends on parser
+// state that an earlier, completed construct must not leave behind (12.7, 12.8,
+// 12.9, 12.12: break/continue/return/labels are judged against the *enclosing*
+// statements of the same function only), or a reserved word spelled with a
+// unicode escape in a binding position (7.6: an escape does not change which
+// IdentifierName it is; 7.6.1: a ReservedWord is not an Identifier).
+func contextInvalid(r *gen.Rand) string {
+	if r.Chance(1, 3) {
+		words := []string{"break", "case", "catch", "continue", "debugger", "default", "delete", "do", "else", "finally", "for", "function", "if", "in", "instanceof", "new", "return", "switch", "this", "throw", "try", "typeof", "var", "void", "while", "with",
+			"class", "const", "enum", "export", "extends", "import", "super", "null", "true", "false"}
+		w := words[r.Intn(len(words))]
+		i := r.Intn(len(w))
+		esc := w[:i] + fmt.Sprintf("\\u%04x", w[i]) + w[i+1:]
+		if r.Chance(1, 4) {
+			esc = w[:i] + fmt.Sprintf("\\u%04X", w[i]) + w[i+1:]
+		}
+		tpl := []string{"var %s = 1;", "%s = 5;", "function %s() {}", "function f(%s) {}", "try {} catch (%s) {}", "%s: ;", "x = function %s() {};", "for (var %s in o) ;", "var a, %s;", "%s++;"}[r.Intn(10)]
+		return fmt.Sprintf(tpl, esc)
+	}
+	prefixes := []string{"switch (x) {}", "switch (x) { case 1: break; default: }", "while (0) {}", "for (;;) { break; }", "do {} while (0);", "for (k in o) { continue; }", "function f() { return 1; }", "(function () { return; });",
+		"L: while (0) { continue L; }", "L: { break L; }", "L: ;", "try {} finally {}", "with (o) {}", "if (x) {} else {}", "x = function () { while (0) { break; } };", "var g = { get a() { return 1; } };", "L: switch (x) { case 1: break L; }", "M: for (;;) { L: for (;;) { continue M; } }"}
+	pre := prefixes[r.Intn(len(prefixes))]
+	bad := []string{"break;", "continue;", "break L;", "continue L;", "return;", "return 1;"}[r.Intn(6)]
+	isReturn := strings.HasPrefix(bad, "return")
+	body := pre + " " + bad
+	if r.Chance(1, 4) {
+		body = pre + " if (y) { " + bad + " }"
+	}
+	switch w := r.Intn(8); {
+	case w == 0:
+		return "{ " + body + " }"
+	case w == 1:
+		return "if (y) { " + body + " }"
+	case w == 2 && !isReturn:
+		return "function w() { " + body + " }"
+	case w == 3:
+		return "try { " + body + " } catch (e) {}"
+	case w == 4 && !isReturn:
+		return "while (0) { (function () { " + body + " }); }"
+	case w == 5 && !isReturn:
+		return "L: while (0) { x = function () { " + pre + " " + []string{"break L;", "continue L;"}[r.Intn(2)] + " }; }"
+	case w == 6 && !isReturn:
+		return "switch (x) { case 1: (function () { " + body + " }); }"
+	}
+	return body
+}
+
 var vm *otto.Otto
 var lg *ox.Logger
 
@@ -130,7 +178,7 @@ var soup = []string{"a", "b", "1", "0x", "'", "\"", "/", "/*", "*/", "//", "\n",
 func exec(c *run.Ctx, i int) {
 	r := c.Rng
 	mode := []int{0, int(parser.StoreComments), int(parser.IgnoreRegExpErrors)}[r.Intn(3)]
-	switch k := r.Intn(20); {
+	switch k := r.Intn(22); {
 	case k < 3: // random bytes
 		n := r.Range(0, 400)
 		b := make([]byte, n)
@@ -195,6 +243,9 @@ func exec(c *run.Ctx, i int) {
 			src = "log('pre');\nvar pre = 1;"
 		}
 		s := invalidSnippets[r.Intn(len(invalidSnippets))]
+		if r.Chance(1, 3) {
+			s = contextInvalid(r)
+		}
 		in := mk("invalid", src+"\n"+s, mode)
 		if r.Bool() {
 			in = mk("invalid", s+"\n"+src, mode)
@@ -202,6 +253,10 @@ func exec(c *run.Ctx, i int) {
 		}
 		in.Invalid = s
 		checkOne(c, in)
+	case k >= 20: // literal internals: escape and pattern fragments inside string / regexp / numeric literals
+		for m := 0; m < 25; m++ {
+			checkOne(c, mk("literal", litfuzz.Source(r), mode))
+		}
 	case k < 18: // nesting bombs
 		depth := []int{10, 100, 400, 1000}[r.Intn(4)]
 		open := []string{"(", "[", "{", "a?", "!", "-", "f(", "[[", "{a:", "function(){", "if(1)", "new "}[r.Intn(12)]
